@@ -100,6 +100,9 @@ def _gate(self, name):
 
 def _run(self):
     ctx = self.context
+    if ctx is None:
+        # run() is only ever reached through a runner, which hands the task its filtered view of the Lab context first
+        raise RuntimeError('run() was called on a task that was given no context')
     _record(self, 'start', context=(None if ctx is None else {k: repr(v) for k, v in sorted(ctx.items())}),
             start_method=__import__('multiprocessing').get_start_method(allow_none=True),
             main_file=getattr(sys.modules.get('__main__'), '__file__', None),
